@@ -623,13 +623,45 @@ class _Canon(ast.NodeTransformer):
                 root = _dotted(seq).split(".")[0]
                 rebinds = any(isinstance(y, ast.Name) and y.id in (root, x, j) and isinstance(y.ctx, ast.Store) for z in rest for y in ast.walk(z))
                 if not rebinds:
-                    j_used = any(isinstance(y, ast.Name) and y.id == j for z in rest for y in ast.walk(z))
+                    j_used = any(isinstance(y, ast.Name) and y.id == j for z in rest for y in ast.walk(z)) or j in fn_loads_after(st)
                     if j_used:
                         tgt = ast.Tuple(elts=[ast.Name(id=j, ctx=ast.Store()), ast.Name(id=x, ctx=ast.Store())], ctx=ast.Store())
                         it = ast.Call(func=ast.Name(id="enumerate", ctx=ast.Load()), args=[seq], keywords=[])
                     else:
                         tgt, it = ast.Name(id=x, ctx=ast.Store()), seq
                     st = ast.For(target=tgt, iter=it, body=rest, orelse=[], lineno=st.lineno)
+            # (c') for j in range(len(s)): … s[j] …   ≡   for j, el in enumerate(s): … el …     (s not rebound, no store into s[j], in the body)
+            if isinstance(st, ast.For) and not st.orelse and isinstance(st.target, ast.Name) and isinstance(st.iter, ast.Call) and _dotted(st.iter.func) == "range" \
+                    and len(st.iter.args) == 1 and isinstance(st.iter.args[0], ast.Call) and _dotted(st.iter.args[0].func) == "len" and len(st.iter.args[0].args) == 1 \
+                    and _dotted(st.iter.args[0].args[0]):
+                j, seq = st.target.id, st.iter.args[0].args[0]
+                sd = ast.dump(seq)
+                root = _dotted(seq).split(".")[0]
+                subs = [y for z in st.body for y in ast.walk(z) if isinstance(y, ast.Subscript) and ast.dump(y.value) == sd and isinstance(y.slice, ast.Name) and y.slice.id == j]
+                rebinds = any(isinstance(y, ast.Name) and y.id in (root, j) and isinstance(y.ctx, ast.Store) for z in st.body for y in ast.walk(z))
+                if subs and all(isinstance(y.ctx, ast.Load) for y in subs) and not rebinds:
+                    el = f"{j}__el"
+
+                    class _R(ast.NodeTransformer):
+                        def visit_Subscript(self, y):
+                            if ast.dump(y.value) == sd and isinstance(y.slice, ast.Name) and y.slice.id == j:
+                                return ast.Name(id=el, ctx=ast.Load())
+                            self.generic_visit(y)
+                            return y
+                    body2 = [_R().visit(z) for z in st.body]
+                    j_used = any(isinstance(y, ast.Name) and y.id == j for z in body2 for y in ast.walk(z)) or j in fn_loads_after(st)
+                    if j_used:
+                        tgt = ast.Tuple(elts=[ast.Name(id=j, ctx=ast.Store()), ast.Name(id=el, ctx=ast.Store())], ctx=ast.Store())
+                        it = ast.Call(func=ast.Name(id="enumerate", ctx=ast.Load()), args=[seq], keywords=[])
+                    else:
+                        tgt, it = ast.Name(id=el, ctx=ast.Store()), seq
+                    st = ast.For(target=tgt, iter=it, body=body2, orelse=[], lineno=st.lineno)
+            # (c'') for j, x in enumerate(s) with j never read (in the body or after the loop)   ≡   for x in s
+            if isinstance(st, ast.For) and isinstance(st.iter, ast.Call) and _dotted(st.iter.func) == "enumerate" and len(st.iter.args) == 1 and not st.iter.keywords \
+                    and isinstance(st.target, ast.Tuple) and len(st.target.elts) == 2 and isinstance(st.target.elts[0], ast.Name):
+                j = st.target.elts[0].id
+                if not any(isinstance(y, ast.Name) and y.id == j for z in st.body + st.orelse for y in ast.walk(z)) and j not in fn_loads_after(st):
+                    st = ast.For(target=st.target.elts[1], iter=st.iter.args[0], body=st.body, orelse=st.orelse, lineno=st.lineno)
             # (e) xs = []; for v in it: [if c:] xs.append(e)   ≡   xs = [e for v in it if c]
             if isinstance(st, ast.For) and not st.orelse and out and isinstance(out[-1], ast.Assign) and len(out[-1].targets) == 1 and isinstance(out[-1].targets[0], ast.Name) \
                     and isinstance(out[-1].value, ast.List) and not out[-1].value.elts and len(st.body) == 1:
